@@ -4,6 +4,7 @@ import (
 	"fmt"
 	"go/token"
 	"go/types"
+	"strings"
 
 	"golang.org/x/tools/go/ssa"
 )
@@ -585,4 +586,189 @@ type effects struct {
 	comps  map[string]bool
 	all    bool
 	inline *ssa.Function
+}
+
+// compBases records, for a heap component written inside a loop, which
+// pre-existing objects may be written. unknown means "any object".
+type compBases struct {
+	unknown bool
+	bases   []Term
+}
+
+func rootOf(addr ssa.Value) (ssa.Value, bool) {
+	for {
+		switch a := addr.(type) {
+		case *ssa.FieldAddr:
+			addr = a.X
+		case *ssa.IndexAddr:
+			if _, ok := a.X.Type().Underlying().(*types.Slice); ok {
+				return a.X, true
+			}
+			addr = a.X
+		default:
+			return addr, false
+		}
+	}
+}
+
+// loopBases refines the write set of a loop to object granularity where the
+// written objects are either loop-invariant pointers or allocated in the loop.
+func (f *Frame) loopBases(blocks map[*ssa.BasicBlock]bool) map[string]*compBases {
+	c := f.c
+	out := map[string]*compBases{}
+	get := func(k string) *compBases {
+		if out[k] == nil {
+			out[k] = &compBases{}
+		}
+		return out[k]
+	}
+	outside := func(v ssa.Value) bool {
+		switch x := v.(type) {
+		case *ssa.Parameter, *ssa.FreeVar, *ssa.Const:
+			return true
+		case ssa.Instruction:
+			return !blocks[x.Block()]
+		}
+		return false
+	}
+	freshIn := func(v ssa.Value) bool {
+		switch x := v.(type) {
+		case *ssa.Alloc:
+			return blocks[x.Block()]
+		case *ssa.MakeMap:
+			return blocks[x.Block()]
+		case *ssa.MakeSlice:
+			return blocks[x.Block()]
+		}
+		return false
+	}
+	addBase := func(k string, root ssa.Value, elem bool) {
+		cb := get(k)
+		if strings.HasPrefix(k, "G|") || strings.HasPrefix(k, "X|") || strings.HasPrefix(k, "D|") {
+			cb.unknown = true
+			return
+		}
+		switch {
+		case freshIn(root):
+		case outside(root):
+			if _, isG := root.(*ssa.Global); isG {
+				cb.unknown = true
+				return
+			}
+			if _, ok := f.vals[root]; !ok {
+				if _, isC := root.(*ssa.Const); !isC {
+					cb.unknown = true
+					return
+				}
+			}
+			t := f.val(root)
+			if elem {
+				t = app(SInt, "sl_arr", t)
+			}
+			if t.Sort != SInt {
+				cb.unknown = true
+				return
+			}
+			cb.bases = append(cb.bases, t)
+		default:
+			cb.unknown = true
+		}
+	}
+	shapeLoc := func(v ssa.Value) *Loc {
+		saved := f.shape
+		f.shape = true
+		defer func() { f.shape = saved }()
+		return f.locOf(v)
+	}
+	for _, b := range f.fn.Blocks {
+		if !blocks[b] {
+			continue
+		}
+		for _, in := range b.Instrs {
+			switch in := in.(type) {
+			case *ssa.Store:
+				root, elem := rootOf(in.Addr)
+				for _, k := range c.compsOfLoc(shapeLoc(in.Addr)) {
+					addBase(k, root, elem)
+				}
+			case *ssa.MapUpdate:
+				has, val, ln := c.mapComps(in.Map.Type().Underlying().(*types.Map))
+				for _, k := range []string{has, val, ln} {
+					addBase(k, in.Map, false)
+				}
+			case *ssa.Slice:
+				if pt, ok := in.X.Type().Underlying().(*types.Pointer); ok {
+					if at, ok := pt.Elem().Underlying().(*types.Array); ok {
+						root, _ := rootOf(in.X)
+						addBase(c.elemComp(at.Elem()), root, false)
+					}
+				}
+			case *ssa.Defer, *ssa.Call:
+				ci := in.(ssa.CallInstruction)
+				cm := ci.Common()
+				p := f.resolve(ci)
+				args := cm.Args
+				if cm.IsInvoke() {
+					args = append([]ssa.Value{cm.Value}, args...)
+				}
+				switch p.kind {
+				case "builtin":
+					switch p.name {
+					case "append", "copy":
+						if st, ok := cm.Args[0].Type().Underlying().(*types.Slice); ok {
+							addBase(c.elemComp(st.Elem()), cm.Args[0], true)
+						}
+					case "delete", "clear":
+						if mt, ok := cm.Args[0].Type().Underlying().(*types.Map); ok {
+							has, val, ln := c.mapComps(mt)
+							for _, k := range []string{has, val, ln} {
+								addBase(k, cm.Args[0], false)
+							}
+						}
+					}
+				case "contract":
+					if p.fc.ModAll {
+						break
+					}
+					ts, names := f.modTargetsShape(p)
+					for _, t := range ts {
+						idx := -1
+						if t.obj != nil {
+							for i, n := range names {
+								if t.obj.S == n || t.obj.S == "(sl_arr "+n+")" {
+									idx = i
+								}
+							}
+						}
+						if idx >= 0 && idx < len(args) {
+							addBase(t.comp, args[idx], strings.HasPrefix(t.obj.S, "(sl_arr "))
+						} else {
+							get(t.comp).unknown = true
+						}
+					}
+				case "noeffect":
+					if f.silentCallee(ci, p) {
+						break
+					}
+					for _, a := range args {
+						_, isSlice := a.Type().Underlying().(*types.Slice)
+						root := a
+						if !isSlice {
+							root, _ = rootOf(a)
+						}
+						for _, k := range f.directComps(a) {
+							addBase(k, root, isSlice)
+						}
+					}
+				case "inline":
+					fr := c.newFrameShape(p.fn, f)
+					cs, _ := fr.writeSet(nil)
+					for k := range cs {
+						get(k).unknown = true
+					}
+				}
+			}
+		}
+	}
+	return out
 }
